@@ -39,7 +39,7 @@ FK_TABLES = {
 @st.composite
 def _cases(draw):
     t0 = draw(eop_instants(margin_days=3))
-    dt = draw(st.sampled_from([20, 30, 60]))
+    dt = draw(st.sampled_from([20, 30, 60, 225]))  # 3 x 225 s = 675 s = 86400/128 s is exact in Julian-date arithmetic
     out = draw(st.sampled_from([dt, dt, 2 * dt, 3 * dt, dt + dt // 2, 50 if dt == 20 else 2 * dt]))
     ops = []
     total = 0
